@@ -80,6 +80,17 @@ class AbstractDispatcher(ABC):
         pass
 
 
+class _FuncWrapper():
+    # Dispatchers find a responder's entry by its wrapped function, each
+    # responder needs its own object even if the same function is used by
+    # more than one of them (else removing or updating one moves another).
+    def __init__(self, func):
+        self.func = func
+
+    def __call__(self, *args):
+        fn.value(self.func, *args)
+
+
 class AbstractWrappingDispatcher(AbstractDispatcher):
     # // basis for the default dispatchers
     # // uses function wrappers for matching
@@ -364,8 +375,10 @@ class OscMessageDispatcher(AbstractWrappingDispatcher):
             return OscFuncAddrMessageMatcher(src_id, func)
         elif recv_port is not None:
             return OscFuncRecvPortMessageMatcher(recv_port, func)
-        else:
+        elif arg_template is not None:
             return func
+        else:
+            return _FuncWrapper(func)
 
     def get_keys_for_func_proxy(self, func_proxy):
         return [func_proxy.path]
@@ -607,8 +620,10 @@ class MidiMessageDispatcher(AbstractWrappingDispatcher):
             func = MidiArgsMatcher(arg_template, func)
         if midi_in is not None:
             return MidiFuncRecvPortMessageMatcher(midi_in, func)
-        else:
+        elif arg_template is not None:
             return func
+        else:
+            return _FuncWrapper(func)
 
     def get_keys_for_func_proxy(self, func_proxy):
         mm = func_proxy.midi_msg
